@@ -288,6 +288,17 @@ def mk_bin(op, a, b, opty, ty):
         return b
     if op == 'BitAnd' and ((a[0] == 'c' and a[1] == 0) or (b[0] == 'c' and b[1] == 0)):
         return C(0, ty)
+    if op == 'Mul' and opty not in ('f32', 'f64'):
+        if a[0] == 'c' and a[1] == 1:
+            return b
+        if b[0] == 'c' and b[1] == 1:
+            return a
+    if op == 'BitAnd' and opty in INT_BITS and opty != 'bool':
+        full = (1 << INT_BITS[opty]) - 1
+        if a[0] == 'c' and (a[1] & full) == full:
+            return b
+        if b[0] == 'c' and (b[1] & full) == full:
+            return a
     return mk('bin', op, a, b, ty)
 
 
@@ -347,6 +358,16 @@ OPTION_NONE = agg(('adt', 'core::option::Option', 0), ())
 
 
 # -------------------------------------------------------------------------------------------------
+
+def has_opaque(val):
+    if isinstance(val, dict):
+        if 'opaque' in val:
+            return True
+        return any(has_opaque(v) for v in val.values())
+    if isinstance(val, list):
+        return any(has_opaque(v) for v in val[:8])
+    return False
+
 
 class State:
     """frames: frame id -> {local: value}; pc: facts known on every path to this point (for pruning);
@@ -929,7 +950,7 @@ class Exec:
                     key, sty = None, None
                 return mk('fnref', key or (f.get('resolved') or f['def']), sty, bool(key), f['def'])
             val = o.get('val')
-            if isinstance(val, dict) and 'opaque' in val and 'promoted' in o and o['promoted'] is not True:
+            if 'promoted' in o and o['promoted'] is not True and has_opaque(val):
                 return self.run_promoted(st, o['promoted_owner'], o['promoted'])
             return self.conv_const(val, o['ty'])
         raise Uncertified("operand kind %s" % k)
@@ -980,6 +1001,12 @@ class Exec:
         if k == 'use':
             return self.operand(st, fid, rv['op'])
         if k == 'ref' or k == 'rawptr':
+            pl = rv['place']
+            if len(pl['proj']) == 1 and pl['proj'][0]['k'] == 'deref':
+                # reborrow `&*p` / `&mut *p`: the same pointer (keeps slice windows)
+                pv = st.frames[fid].get(pl['local'], UNDEF)
+                if pv[0] == 'ref':
+                    return pv
             loc = self.resolve_place(st, fid, rv['place'])
             if loc[0] == 'val':
                 return mk('ref', ('val', self.get_path(loc[1], loc[2])), None)
@@ -1357,6 +1384,14 @@ class Exec:
                 ret = models.derived(self, st, callee, cfn, args, f, t)
                 self.write_place(st, fid, t['dest'], ret)
                 return st
+            cmir = cfn['mir']
+            if cfn.get('kind') == 'Closure' and len(args) == 2 and len(args) != cmir['arg_count'] and args[1][0] == 'agg' and args[1][1][0] == 'tuple':
+                # `Fn::call(&closure, (a, b, ..))`: the body takes the tuple's elements as separate parameters
+                first = args[0]
+                t1 = self.pdb.ty(cmir['locals'][1])
+                if t1['k'] != 'ref' and first[0] == 'ref':
+                    first = self.load(st, first)
+                args = [first] + list(args[1][2])
             ret, st2 = self.call_fn(st, callee, args, self_ty, ctx['depth'] + 1, self.const_bindings(callee, f))
             self.write_place(st2, fid, t['dest'], ret)
             return st2
